@@ -949,6 +949,15 @@ class Server:
                 )
                 connection.extra_workers -= done
                 for task in done:
+                    if task.cancelled():
+                        # a transfer task cancelled by ABOR before its first step:
+                        # it never took the data connection and cannot answer
+                        if connection.future.data_connection.done():
+                            connection.data_connection.close()
+                            del connection.data_connection
+                        connection.response("426", "transfer aborted")
+                        connection.response("226", "abort successful")
+                        continue
                     try:
                         result = task.result()
                     except errors.PathIOError:
